@@ -475,8 +475,16 @@ def x9(ctx):
             cl = C._closure_of_role(crate, b.role_of_operand(a))
             if hasattr(cl, "calls"):
                 r = strip_role(cl.role_of_local(0))
-                if isinstance(r, tuple) and r[0] == "call" and r[1] == "index" and role_mentions_call(r[3][0], "collect") and role_str(strip_role(r[3][1])).endswith(".0") and not any(isinstance(x, tuple) and x[0] == "bin" for x in role_walk(r[3][1])):
-                    okk = True
+                if isinstance(r, tuple) and r[0] == "call" and r[1] == "index" and role_str(strip_role(r[3][1])).endswith(".0") and not any(isinstance(x, tuple) and x[0] == "bin" for x in role_walk(r[3][1])):
+                    vec = strip_role(r[3][0])
+                    while isinstance(vec, tuple) and vec[0] == "call" and vec[1] in ("deref", "borrow", "as_slice") and vec[3]:
+                        vec = strip_role(vec[3][0])
+                    # the vector indexed is the vector of the children's costs: collected from the recursive calls, or the very
+                    # vector the recursive results are pushed into
+                    filled = [p_ for p_ in b.calls if p_.callee and p_.callee.name == "push" and not b.blocks[p_.bb]["cleanup"] and role_mentions_call(b.role_of_operand(p_.args[1]), "cost_rec")
+                              and strip_role(b.role_of_operand(p_.args[0])) == vec]
+                    if role_mentions_call(vec, "collect") or filled:
+                        okk = True
     ctx.check(okk, "cost-rec:closure-indexes-by-id", "the cost closure answers child_costs[id.0]", "the cost closure of cost_rec does not answer child_costs[id.0]", where_of(b))
     # (d) AstSize
     az = [x for x in crate.by_name.get("cost", []) if x.kind != "Closure" and "AstSize" in (x.impl_self or "")]
